@@ -150,6 +150,26 @@ static void source_round(void){ dispatch_queue_t q=dispatch_queue_create("sq",NU
   if(rnd()%2) usleep(rnd()%2000); dispatch_source_cancel(s); dispatch_release(s); dispatch_release(q);
   for(int w=0; w<5000 && !atomic_load(&cancels); w++) usleep(200);
   if(atomic_load(&cancels)!=1) fail("a released source's cancel handler did not run exactly once: runs",atomic_load(&cancels),0,0); }
+// a timer source re-programmed onto another clock while it is armed (it moves to another timer heap; the heap's references move
+// with it), then left to fire / cancelled: never finalised while the application holds its reference, finalised exactly once after
+struct trc { _Atomic int fins, held, fired; };
+static void trc_fin(void *c){ struct trc *x=c; if(atomic_fetch_add(&x->fins,1)) fail("a timer source's finalizer ran more than once (re-clocked timer)",0,0,0);
+  if(atomic_load(&x->held)) fail("a timer source was finalised while the application still held its reference (re-programmed onto another clock while armed): fired",atomic_load(&x->fired),0,0); }
+static dispatch_time_t on_clock(int k, int64_t ns){ return k==0 ? dispatch_time(DISPATCH_TIME_NOW,ns) : k==1 ? dispatch_walltime(NULL,ns) : dispatch_time(0x8000000000000000ull /* DISPATCH_MONOTONICTIME_NOW */,ns); }
+static void timer_reclock_round(void){ struct trc *x=calloc(1,sizeof *x); dispatch_queue_t q=dispatch_queue_create("tq",NULL);
+  dispatch_source_t s=dispatch_source_create(DISPATCH_SOURCE_TYPE_TIMER,0,0,q); dispatch_set_context(s,x); dispatch_set_finalizer_f(s,trc_fin); atomic_store(&x->held,1);
+  dispatch_source_set_event_handler(s,^{ atomic_fetch_add(&x->fired,1); });
+  int k0=(int)(rnd()%3), oneshot=(int)(rnd()%2); uint64_t iv=oneshot?DISPATCH_TIME_FOREVER:(uint64_t)(300000+rnd()%700000);
+  dispatch_source_set_timer(s,on_clock(k0,(int64_t)(20000000+rnd()%30000000)),iv,0); dispatch_activate(s);
+  if(rnd()%2) usleep(rnd()%500);
+  int hops=1+(int)(rnd()%3), k=k0; for(int h=0;h<hops;h++){ k=(k+1+(int)(rnd()%2))%3; dispatch_source_set_timer(s,on_clock(k,(int64_t)(500000+rnd()%1500000)),iv,0); if(rnd()%2) usleep(rnd()%300); }
+  for(int w=0; w<3000 && !atomic_load(&x->fired); w++) usleep(500);
+  usleep(1500);
+  if(!atomic_load(&x->fired)) fail("a re-clocked timer never fired: first clock/last clock",k0,k,0);
+  if(atomic_load(&x->fins)) fail("a timer source was finalised while the application still held its reference: fired/finalizer runs",atomic_load(&x->fired),atomic_load(&x->fins),0);
+  atomic_store(&x->held,0); dispatch_source_cancel(s); dispatch_release(s); dispatch_release(q);
+  for(int w=0; w<5000 && !atomic_load(&x->fins); w++) usleep(200);
+  if(atomic_load(&x->fins)!=1) fail("a cancelled and released timer source was not finalised exactly once: runs",atomic_load(&x->fins),0,0); }
 static void data_round(void){ enum { N=5 }; _Atomic int *d=calloc(N,sizeof *d); dispatch_queue_t dq=dispatch_get_global_queue(0,0); dispatch_data_t leaf[N];
   for(int i=0;i<N;i++){ size_t sz=64+rnd()%4096; void *buf=malloc(sz); memset(buf,i,sz); leaf[i]=dispatch_data_create(buf,sz,dq,^{ if(atomic_fetch_add(&d[i],1)) fail("a data destructor ran more than once: leaf",i,0,0); free(buf); }); }
   dispatch_data_t objs[16]; int no=0;
@@ -164,7 +184,7 @@ static void data_round(void){ enum { N=5 }; _Atomic int *d=calloc(N,sizeof *d); 
   for(int w=0; w<5000; w++){ int all=1; for(int j=0;j<N;j++) if(!atomic_load(&d[j])) all=0; if(all) break; usleep(200); }
   for(int j=0;j<N && !viol;j++) if(atomic_load(&d[j])!=1) fail("a data destructor did not run exactly once after the last reference to its data was dropped: leaf/runs",j,atomic_load(&d[j]),0); }
 static int nrounds, do_trace;
-static void *worker(void *a){ long me=(long)a; for(int r=0;r<nrounds && !viol;r++){ hierarchy(do_trace && me==0); if(r%4==0) source_round(); if(r%3==0) data_round(); if(r%2==0) retarget_round(do_trace && me==0); } return 0; }
+static void *worker(void *a){ long me=(long)a; for(int r=0;r<nrounds && !viol;r++){ hierarchy(do_trace && me==0); if(r%4==0) source_round(); if(r%5==1) timer_reclock_round(); if(r%3==0) data_round(); if(r%2==0) retarget_round(do_trace && me==0); } return 0; }
 static void on_crash(int sig){ char b[220]; int n=snprintf(b,sizeof b,"ORACLE VIOL seed=%llu the library trapped or crashed (signal %d) during object life cycles (its own over-release / resurrection / corrupt-state check, or a use after free)\n",(unsigned long long)seed,sig); if(n>0) (void)!write(1,b,(size_t)n); _exit(1); }
 int main(int argc,char**argv){ seed=argc>1?strtoull(argv[1],0,0):1; nrounds=argc>2?atoi(argv[2]):60; int nthr=argc>3?atoi(argv[3]):3; do_trace=1;
   if(!getenv("ASAN_OPTIONS")){ signal(SIGILL,on_crash); signal(SIGSEGV,on_crash); signal(SIGABRT,on_crash); signal(SIGBUS,on_crash); }
